@@ -202,4 +202,139 @@ theorem appAfterLoad_c : appAfterLoad Ex.conv Ex.env pkgsH Ex.schema qC = Ex.sch
   rw [loadStop_c, importStop_c]
   rfl
 
+/-! ### the same-named non-implementer: `%import q` / `<leak/>` on the used schema object and on a fresh one -/
+
+/-- the private schema after `%import q` on the application's schema object that lists `leak` already -/
+def schemaLq : Schema :=
+  { types := [("ab".toList, .abstract_ "ab".toList ["leak".toList]), ("leak".toList, .concrete Ex.leak)],
+    top := Ex.top, handler := none, components := ["v".toList] }
+/-- … and on the fresh one -/
+def schemaQ : Schema :=
+  { types := [("ab".toList, .abstract_ "ab".toList []), ("leak".toList, .concrete Ex.leak)],
+    top := Ex.top, handler := none, components := ["v".toList] }
+
+def u1 : LS := { h0 schemaL with schema := schemaLq, privateSchema := true }
+def u2 : LS := { u1 with stack := newMatcher Ex.leak none none :: newMatcher Ex.top none none :: [] }
+def u3 : LS := { u1 with stack := [Ex.mTop'] }
+def f1 : LS := { h0 Ex.schema with schema := schemaQ, privateSchema := true }
+
+theorem import_q_used : lsImport (h0 schemaL) "q".toList = .ok u1 := rfl
+theorem import_q_fresh : lsImport (h0 Ex.schema) "q".toList = .ok f1 := rfl
+
+theorem gsi_used : getsectioninfo schemaLq Ex.top "leak".toList none = .ok Ex.slot := by
+  unfold getsectioninfo
+  rw [show Ex.top.children = [] ++ (none, .sect Ex.slot) :: [] from rfl,
+    go_skip _ _ _ _ _ (fun _ h => by cases h) (fun _ h => by cases h),
+    go_at_unnamed_abstract _ _ _ _ _ (by decide) (by decide)]
+  rw [show isSubtype schemaLq Ex.slot.ty "leak".toList = true by decide, if_pos rfl]
+
+theorem start_used : lsStart u1 "leak".toList none = .ok u2 :=
+  lsStart_admitted_unnamed u1 "leak".toList none (newMatcher Ex.top none none) [] Ex.leak Ex.slot [] [] rfl rfl rfl rfl rfl
+    (fun _ h => by cases h) (fun _ h => by cases h) (by decide) (by decide) (by decide)
+
+theorem fin_leak_used : finishMatcher Ex.conv schemaLq (newMatcher Ex.leak none none) = .ok (Ex.vLeak, []) := rfl
+
+theorem stop_used : lsStop u2 "leak".toList none = .ok u3 := by
+  unfold lsStop
+  simp only [u2, u1, h0, bind, Except.bind, fin_leak_used]
+  rw [addSection_eq]
+  simp only [newName, List.any_nil, Bool.false_eq_true, if_false]
+  rw [show (newMatcher Ex.top none none).ty = Ex.top from rfl, gsi_used]
+  rfl
+
+theorem fin_top_used : finishMatcher Ex.conv schemaLq Ex.mTop' = .ok (.sect [] none [("s".toList, .list [Ex.vLeak])], []) := rfl
+
+theorem start_fresh : lsStart f1 "leak".toList none = .error (plainErr "no matching section defined") :=
+  lsStart_unclaimed_refused f1 "leak".toList none (newMatcher Ex.top none none) [] Ex.leak rfl rfl rfl
+    (by
+      intro c hc
+      have : c = (none, .sect Ex.slot) := by simpa [newMatcher, Ex.top] using hc
+      subst this
+      unfold keyShapeOK
+      exact ⟨fun k h => (by cases h), fun _ => ⟨Ex.slot, rfl⟩, fun ki h => (by cases h)⟩)
+    (by
+      intro c hc
+      have : c = (none, .sect Ex.slot) := by simpa [newMatcher, Ex.top] using hc
+      subst this
+      decide)
+
+/-- on the application's schema object that an earlier `%import p` left behind, `%import q` / `<leak/>` is ACCEPTED:
+    `q`'s type `leak` implements nothing, but the name stands in `ab`'s table -/
+theorem load_twin_used : ∃ r, load Ex.conv Ex.env pkgsH schemaL none ["%import q".toList, "<leak/>".toList] [] = .ok r ∧
+    r.value = .sect [] none [("s".toList, .list [Ex.vLeak])] := by
+  have hstrip : strip "q".toList = "q".toList := by decide
+  unfold load
+  simp only [List.mapM_nil, pure, Except.pure, bind, Except.bind, List.isEmpty_nil, if_true]
+  rw [parseLines, stepLine_import _ _ _ _ _ _ _ _ _ shape_q]
+  unfold impStep
+  rw [replace_nodollar _ _ _ _ _ (by decide), hstrip]
+  simp only [bind, Except.bind, loaderCtx]
+  rw [show lsImport { schema := schemaL, privateSchema := false, handlers := [], stack := [newMatcher schemaL.top none none], pkgs := pkgsH, conv := Ex.conv } "q".toList = _ from import_q_used]
+  simp only [Except.map]
+  rw [parseLines, stepLine]
+  simp only [shape_leak, openSection, start_used, stop_used, closeFixup, Except.map, if_true, bind, Except.bind]
+  rw [parseLines]
+  simp only [bne_self_eq_false, Bool.false_eq_true, if_false, u3, u1, h0]
+  rw [fin_top_used]
+  exact ⟨⟨_, _, _⟩, rfl, rfl⟩
+
+/-- on a fresh schema object the same text is REJECTED at line 2 -/
+theorem load_twin_fresh : load Ex.conv Ex.env pkgsH Ex.schema none ["%import q".toList, "<leak/>".toList] [] =
+    .error (synErr none 2 "start:no matching section defined") := by
+  have hstrip : strip "q".toList = "q".toList := by decide
+  unfold load
+  simp only [List.mapM_nil, pure, Except.pure, bind, Except.bind, List.isEmpty_nil, if_true]
+  rw [parseLines, stepLine_import _ _ _ _ _ _ _ _ _ shape_q]
+  unfold impStep
+  rw [replace_nodollar _ _ _ _ _ (by decide), hstrip]
+  simp only [bind, Except.bind, loaderCtx]
+  rw [show lsImport { schema := Ex.schema, privateSchema := false, handlers := [], stack := [newMatcher Ex.schema.top none none], pkgs := pkgsH, conv := Ex.conv } "q".toList = _ from import_q_fresh]
+  simp only [Except.map]
+  rw [parseLines, stepLine]
+  simp only [shape_leak, openSection, start_fresh]
+  rfl
+
+/-- `%import p` in the world `pkgsH` -/
+theorem importStop_pH : importStop (h0 Ex.schema) "p".toList =
+    { schema := Ex.schema', regs := [("leak".toList, "ab".toList)], imports := ["p".toList], broken := none } := rfl
+
+theorem step_import_pH : stepLine 64 Ex.env loaderCtx [] none 1 (strip "%import p".toList)
+    { ctx := h0 Ex.schema, stack := [], defs := [] } =
+      .ok { ctx := { h0 Ex.schema with schema := Ex.schema', privateSchema := true }, stack := [], defs := [] } := by
+  rw [stepLine_import _ _ _ _ _ _ _ _ _ shape_p]
+  unfold impStep
+  rw [replace_nodollar _ _ _ _ _ (by decide), show strip "p".toList = "p".toList by decide]
+  rfl
+
+theorem loadStop_pH : loadStop Ex.conv Ex.env pkgsH Ex.schema none ["%import p".toList] [] =
+    { schema := Ex.schema', regs := [("leak".toList, "ab".toList)], imports := ["p".toList], broken := none } := by
+  unfold loadStop
+  rw [init_h]
+  simp only [activeOf]
+  rw [linesStop_cons, step_import_pH]
+  simp only
+  rw [linesStop_nil, stepStop_import _ _ _ _ _ _ _ _ shape_p]
+  unfold impStop
+  rw [replace_nodollar _ _ _ _ _ (by decide), show strip "p".toList = "p".toList by decide]
+  simp only
+  rw [importStop_pH]
+  rfl
+
+theorem appAfterLoad_pH : appAfterLoad Ex.conv Ex.env pkgsH Ex.schema qP = schemaL := by
+  rw [appAfterLoad_eq]
+  show Ex.schema.withImplementers (loadStop Ex.conv Ex.env pkgsH Ex.schema none ["%import p".toList] []).regs = schemaL
+  rw [loadStop_pH]
+  rfl
+
+theorem load_pH : ∃ r, load Ex.conv Ex.env pkgsH Ex.schema none ["%import p".toList] [] = .ok r := by
+  unfold load
+  simp only [List.mapM_nil, pure, Except.pure, bind, Except.bind, List.isEmpty_nil, if_true]
+  rw [parseLines]
+  have := step_import_pH
+  simp only [h0] at this
+  simp only [bind, Except.bind, this]
+  rw [parseLines]
+  simp only [bne_self_eq_false, Bool.false_eq_true, if_false]
+  exact ⟨⟨_, _, _⟩, rfl⟩
+
 end ZCV.Cfg.HEx
